@@ -121,3 +121,21 @@ PROPS['C10'] = dict(
     modelled='fmt.Fprintf("%Nd"), bufio.Writer.WriteRune, strings.Builder',
     assumptions=['Sprint is also compared with Fprint into a strings.Builder (text and byte count) inside the driver'],
 )
+
+PROPS['C12'] = dict(
+    theorem='C12_count_prefix_latch (client_faults), C12_ops_bytes (Properties/C12.v)',
+    functional=True,
+    level_text='Theorem for every underlying writer (any function from call history to (n, err)), every buffer size >= 1 and every operation sequence: with bufio.Writer as '
+               'modelled, the bytes accepted are a prefix of the fault-free output, the returned count is their number, no call reaches the writer after an error is latched, '
+               'no error implies complete delivery, an error implies some call faulted; the operation sequence of the printer has exactly the bytes of the canonical layout. '
+               'Differential run: Fprint/Fwrite of all versions against the extracted model under every fault point k, four fault modes and buffer sizes 1..4096, comparing '
+               '(n, err, writer calls, accepted bytes) exactly; digit-source calls are checked against the prompt-stop bound.',
+    level_note='bufio.Writer (Write, WriteString, WriteByte, WriteRune, Flush) and fmt\'s single Write per Fprintf are modelled from the Go 1.23 sources. Writers answering (0, nil) '
+               'to a non-empty direct write make bufio itself loop and are excluded from the fault space (progress-or-error). Termination (returns without hanging) is checked '
+               'by a wall-clock budget per case on the implementation and by fuel on the model.',
+    rule='cases: ~70 layouts (900 thorough) from the C10 generator over generator-backed Numbers with counted sources; for each, every fault point k in [0, N+1] (strided above 120 '
+         'bytes) x modes {error+partial write, error+no write, short write without error, error then recovery} x buffer sizes {1,2,3,5,16,64,default}. Non-trivial: a fault '
+         'occurred, with a partial prefix delivered, or a small buffer; distinct = distinct (version, args).',
+    modelled='bufio.Writer, fmt.Fprintf/Fprintln as one Write call, io.Writer contract 0 <= n <= len(p)',
+    assumptions=['each implementation call runs under a 3 s wall-clock budget; exceeding it is reported as TIMEOUT'],
+)
